@@ -122,6 +122,11 @@ def transcribe(macro_text, params, scalars=()):
     metas = re.findall(r"\$(\w+)\s*:\s*\w+", pat)
     if metas != list(params):
         raise AnchorLost("macro parameters are %s, contract was written for %s" % (metas, list(params)))
+    return rewrite_body(body, params, scalars)
+
+
+def rewrite_body(body, params, scalars=()):
+    """rules R1-R9 on a block of statements whose container variables are named `params`"""
     b = body.strip()
     # R1
     m = re.match(r"unsafe\s*\{", b)
